@@ -95,6 +95,16 @@ def handle : Handler := fun j => do
         ("split", ofStrs (splitWs l)), ("strip", ofStr (strip l)), ("relop", hasRelop l),
         ("badrelop", badRelop l), ("first", ofStr (firstField l)), ("bracket", ofStrs (splitBracket l)),
         ("external", contains sExternal l)]).toArray)])
+  | "setupversion" =>
+    -- `{"recognised":[tag..], "lines":[], "cases":[{"recorded":s, "declared":b, "tagged":s|null}..]}` → the version reported
+    let recognised ← jstrs j "recognised"
+    let cases ← jarr j "cases"
+    let vs ← cases.mapM fun c => do
+      let recorded ← jstr c "recorded"
+      let declared ← jbool c "declared"
+      let tagged ← jstrOpt c "tagged"
+      pure (ofStr (setupVersion recognised (fun _ => declared) (fun _ => tagged) recorded))
+    pure (Json.mkObj [("versions", Json.arr vs.toArray)])
   | "expand" =>
     let pins ← pairs j "pins"
     let spv ← pairs j "spv"
